@@ -56,25 +56,45 @@ def _whitener(cplx, pe, fname, tag, identity):
     return w
 
 
+q1, q2 = named_ext("q1"), named_ext("q2")       # physical feature counts when a PCA pre-reduction is fitted
+
+
+def _pca(cplx, qe, pe, fname, tag, on):
+    """PCA under the contract of PCA.fit: V (features x PCs) with V^H V = I"""
+    pc = pcamod.PCA(n_modes=2, use_pca=on, sample_name=S, feature_name=fname)
+    if on:
+        Vt = tm.sym(f"Vp{tag}", qe, pe, () if cplx else ("real",))
+        ctx().hyps.append((tm.mul(tm.H(Vt), Vt), tm.I(pe), "PCA.fit contract: V^H V = I"))
+        pc.V = SymDA(Vt, (fname, "mode"), {fname: qe, "mode": pe}, {fname: ("in", f"X{tag}phys", fname), "mode": ("in", f"X{tag}", fname)}, cplx, owner="pca")
+    return pc
+
+
 class BaseModel:
     """a fitted CPCCA-family model as the rotator sees it"""
 
-    def __init__(self, cplx, identity_whitener):
+    def __init__(self, cplx, identity_whitener, with_pca=False):
         pr = () if cplx else ("real",)
         self.sample_name, self.feature_name = S, (F1, F2)
         self.preprocessor1, self.preprocessor2 = IdentPrep("preprocessor1"), IdentPrep("preprocessor2")
-        self.pca1 = pcamod.PCA(n_modes=2, use_pca=False, sample_name=S, feature_name=F1)
-        self.pca2 = pcamod.PCA(n_modes=2, use_pca=False, sample_name=S, feature_name=F2)
+        self.pca1 = _pca(cplx, q1, p1, F1, "1", with_pca)
+        self.pca2 = _pca(cplx, q2, p2, F2, "2", with_pca)
         self.whitener1 = _whitener(cplx, p1, F1, "1", identity_whitener)
         self.whitener2 = _whitener(cplx, p2, F2, "2", identity_whitener)
         cm = ("range", "1", "k0")
         c1, c2, cs = ("in", "X1", F1), ("in", "X2", F2), ("in", "X", S)
         Q1, Q2 = tm.sym("Q1", p1, k0, pr), tm.sym("Q2", p2, k0, pr)
         s = tm.sym("s", k0, k0, ("diag", "real", "herm", "nonneg", "pos", "inv"))
-        self.Xpc1 = SymDA(tm.sym("Xpc1", n, p1, pr), (S, F1), {S: n, F1: p1}, {S: cs, F1: c1}, cplx, owner="caller")
-        self.Xpc2 = SymDA(tm.sym("Xpc2", n, p2, pr), (S, F2), {S: n, F2: p2}, {S: cs, F2: c2}, cplx, owner="caller")
-        Xw1 = self.Xpc1.term if identity_whitener else tm.mul(self.Xpc1.term, self.whitener1.T.term)
-        Xw2 = self.Xpc2.term if identity_whitener else tm.mul(self.Xpc2.term, self.whitener2.T.term)
+        if with_pca:
+            # the data the user transforms is physical (n x q); the PCA maps it to the n x p matrix the whitener sees
+            self.Xpc1 = SymDA(tm.sym("Xph1", n, q1, pr), (S, F1), {S: n, F1: q1}, {S: cs, F1: ("in", "X1phys", F1)}, cplx, owner="caller")
+            self.Xpc2 = SymDA(tm.sym("Xph2", n, q2, pr), (S, F2), {S: n, F2: q2}, {S: cs, F2: ("in", "X2phys", F2)}, cplx, owner="caller")
+            r1, r2 = tm.mul(self.Xpc1.term, self.pca1.V.term), tm.mul(self.Xpc2.term, self.pca2.V.term)
+        else:
+            self.Xpc1 = SymDA(tm.sym("Xpc1", n, p1, pr), (S, F1), {S: n, F1: p1}, {S: cs, F1: c1}, cplx, owner="caller")
+            self.Xpc2 = SymDA(tm.sym("Xpc2", n, p2, pr), (S, F2), {S: n, F2: p2}, {S: cs, F2: c2}, cplx, owner="caller")
+            r1, r2 = self.Xpc1.term, self.Xpc2.term
+        Xw1 = r1 if identity_whitener else tm.mul(r1, self.whitener1.T.term)
+        Xw2 = r2 if identity_whitener else tm.mul(r2, self.whitener2.T.term)
         mk = lambda t, dims, ext, cid, tags=(): SymDA(t, dims, ext, cid, cplx and len(dims) == 2, owner="model", tags=tags)
         self.data = DataContainer()
         d = {"input_data1": mk(Xw1, (S, F1), {S: n, F1: p1}, {S: cs, F1: c1}),
@@ -91,7 +111,7 @@ class BaseModel:
         self.Q1, self.Q2, self.s = Q1, Q2, s
 
 
-def trace(power, cplx, identity_whitener=False, presorted=False):
+def trace(power, cplx, identity_whitener=False, presorted=False, with_pca=False):
     names, xrf, npf = std_names(promax=lib.promax_stub(power), argsort_dask=lib.argsort_dask,
                                 get_deterministic_sign_multiplier=lib.sign_multiplier)
     xrf.ufuncs = {npf.linalg.inv: lib.ufunc_inv, npf.linalg.pinv: lib.ufunc_pinv, npf.linalg.norm: lib.ufunc_colnorm0}
@@ -102,7 +122,10 @@ def trace(power, cplx, identity_whitener=False, presorted=False):
         assume(k0.z >= 2)
         assume(k0.z <= p1.z)
         assume(k0.z <= p2.z)
-        model = BaseModel(cplx, identity_whitener)
+        if with_pca:
+            for qe, pe in ((q1, p1), (q2, p2)):
+                assume(qe.z >= pe.z)
+        model = BaseModel(cplx, identity_whitener, with_pca)
         kr = PNum(z3.Int("kr"))
         assume(kr.z >= 2)
         assume(kr.z <= k0.z)
@@ -131,12 +154,14 @@ def obligations(res, agg, which=("C04", "C05", "C11"), configs=None):
     from ..sym.prove import normalizer_for, prove_eq
     from .common import struct_vc
     fn = "CPCCARotator"
-    configs = configs or [(1, False, False, False), (2, False, False, False), (1, True, False, False), (3, True, False, False), (2, False, True, False),
-                          (2, True, False, True), (1, False, False, True)]
-    for power, cplx, ident, presorted in configs:
-        cfg = f"power={'1' if power == 1 else '>1'},{'complex' if cplx else 'real'}" + (",no whitening" if ident else "") + (",refit of a sorted rotator" if presorted else "")
+    configs = configs or [(1, False, False, False, False), (2, False, False, False, False), (1, True, False, False, False), (3, True, False, False, False),
+                          (2, False, True, False, False), (2, True, False, True, False), (1, False, False, True, False),
+                          (2, False, False, False, True), (1, True, False, False, True), (2, True, True, False, True)]
+    for power, cplx, ident, presorted, with_pca in configs:
+        cfg = f"power={'1' if power == 1 else '>1'},{'complex' if cplx else 'real'}" + (",no whitening" if ident else "") + (",refit of a sorted rotator" if presorted else "") + \
+            (",PCA pre-reduction" if with_pca else "")
         try:
-            paths = trace(power, cplx, identity_whitener=ident, presorted=presorted)
+            paths = trace(power, cplx, identity_whitener=ident, presorted=presorted, with_pca=with_pca)
         except PathLimit as e:
             res.undecided_reasons.append(f"{fn}[{cfg}]: {e}")
             continue
